@@ -1769,7 +1769,7 @@ fn d_exp(u: &mut arbitrary::Unstructured) -> ExpSpec {
         0 => ExpSpec::Never,
         1 => ExpSpec::Height(arb_below(u, 10) as i32 - 2),
         2 => ExpSpec::Time(arb_below(u, 70) as i64 - 10),
-        _ => ExpSpec::Height(u.arbitrary::<u16>().unwrap_or(0) as i32 % 10_000),
+        _ => if arb_bool(u, 1, 2) { ExpSpec::Height(u.arbitrary::<u16>().unwrap_or(0) as i32 % 10_000) } else if arb_bool(u, 1, 2) { ExpSpec::Height(i32::MAX) } else { ExpSpec::Time(i64::MAX) },
     }
 }
 fn d_opt_addr(u: &mut arbitrary::Unstructured) -> Option<u8> {
